@@ -76,7 +76,7 @@ Inductive value :=
 | VObj (f : fid) (args : list value) (kwargs : list (str * value)).   (* opaque object made by a recording factory *)
 
 (* exceptions: subclasses of Exception ... *)
-Inductive exc := ExImport | ExAttr | ExType | ExValue | ExKey | ExUser (n : N).
+Inductive exc := ExImport | ExAttr | ExType | ExValue | ExKey | ExAssert | ExYaml | ExUser (n : N).
 Inductive what := WExc (e : exc) | WNoSuch (name : str) | WUser (n : N).
 (* ... ConfigurationError(what, where), and BaseExceptions that are not Exceptions *)
 Inductive pyexc :=
